@@ -1,5 +1,5 @@
 import Driver.CifArg
-import CifModel.Model.ParseCB
+import CifModel.Model.ParseCBDup
 /-
   family `pcb` (C15):  pcb doc <hex> toks <T…>* prog <k>:<resp>…
      ↦ pc S rc= n= log= <events> cif= <canonical dump> N rc= n= log= <events>
@@ -43,6 +43,8 @@ def parseProgEntry (t : String) : Option (Nat × Int) :=
   | [k, r] => do let k' ← k.toNat?; let r' ← r.toInt?; pure (k', r')
   | _ => none
 
+def lowerAscii (s : Str) : Str := s.map fun c => if 65 ≤ c ∧ c ≤ 90 then c + 32 else c
+
 def progOf (tbl : List (Nat × Int)) : Prog := fun k _ =>
   match (tbl.reverse.find? (·.1 == k)) with
   | some (_, r) => r
@@ -68,6 +70,7 @@ def showEv : Ev → String
   | .pktEnd ps => " @pe" ++ showPairs ps
   | .item n v => " @it " ++ hex n ++ " " ++ CifArg.showValue v
   | .dataname n => " @dn " ++ hex n
+  | .keyword (0 :: code :: _) => " @er " ++ toString code          -- `errEv`: the accepting error callback
   | .keyword t => " @kw " ++ hex t
   | .ws t => " @ws " ++ hex t
 
@@ -96,9 +99,17 @@ def handle : Handler := fun args =>
       let toks ← tokWords.mapM parseTok
       let tbl ← pw.mapM parseProgEntry
       let p := progOf tbl
-      let (logS, rcS, cif) := parseCB p true toks
-      let (logN, rcN, _) := parseCB p false toks
-      pure ("pc S " ++ showRun logS rcS ++ " cif=" ++ CifArg.showCanonCif cif ++ " N " ++ showRun logN rcN)
+      -- the model with the duplicate diagnostics; names and codes compared after ASCII case folding
+      let (logS, rcS, cif) := parseCBD p lowerAscii true toks
+      let (logN, rcN, _) := parseCBD p lowerAscii false toks
+      -- cross-check: without a diagnostic it must be the model the C15 theorems are about
+      let isErr : Ev → Bool := fun e => match e with | .keyword (0 :: _) => true | _ => false
+      let (logS0, rcS0, cif0) := parseCB p true toks
+      let (logN0, rcN0, _) := parseCB p false toks
+      let sameS := logS.any isErr || (showRun logS rcS ++ CifArg.showCanonCif cif == showRun logS0 rcS0 ++ CifArg.showCanonCif cif0)
+      let sameN := logN.any isErr || (showRun logN rcN == showRun logN0 rcN0)
+      if !(sameS && sameN) then pure "pc MODELS-DIFFER"
+      else pure ("pc S " ++ showRun logS rcS ++ " cif=" ++ CifArg.showCanonCif cif ++ " N " ++ showRun logN rcN)
   | _ => none
 
 end Driver.Fam.Pcb
